@@ -43,7 +43,8 @@ class BddMachine(Machine):
                  with_ite=True, with_foa=True, with_reorder=True,
                  seeds=('fresh', 'used', 'swapped'), with_refops=True,
                  with_collect=True, with_swap=True, with_let=False, with_quant=False,
-                 with_sort=False):
+                 with_sort=False, with_twin=False):
+        self.with_twin = with_twin
         self.names = tuple(names)
         self.U = Universe(self.names)
         self.max_handles = max_handles
@@ -189,6 +190,15 @@ class BddMachine(Machine):
                     acts.append(('incref', i))
                 acts.append(('decref', i))
             acts.append(('decref_zero',))
+        if self.with_twin:
+            # an operation in a copy.copy() of the manager (an independent manager from then on)
+            for op in self.ops:
+                for i in idx:
+                    for j in idx:
+                        if i <= j:
+                            acts.append(('twin', op, i, j))
+            if not nh:
+                acts.append(('twin', 'vars', 0, 0))
         if self.with_collect:
             acts.append(('collect',))
             for i in idx:
@@ -300,6 +310,25 @@ class BddMachine(Machine):
                 with warnings.catch_warnings():
                     warnings.simplefilter('ignore')
                     m.decref(z[0])
+        elif kind == 'twin':
+            import copy
+            t = copy.copy(m)
+            _, op, i, j = a
+            if op == 'vars':
+                r = t.apply('xor', t.var(self.names[0]), t.var(self.names[-1]))
+                want = U.var(self.names[0]) ^ U.var(self.names[-1])
+            else:
+                r = t.apply(op, h[i][0], -h[j][0])
+                want = U.op(op, h[i][2], U.full ^ h[j][2])
+            if check and O.Den(t, U)(r) != want:
+                raise Violation('an operation in a copy.copy() of the manager gives a wrong '
+                                'function')
+            # a second operation in the twin re-uses what the first one left behind
+            r2 = t.apply('or', r, t.var(self.names[0]))
+            if check and O.Den(t, U)(r2) != want | U.var(self.names[0]):
+                raise Violation('an operation in a copy.copy() of the manager gives a wrong '
+                                'function')
+            del t
         elif kind == 'collect':
             m.collect_garbage()
             if check:
@@ -421,7 +450,7 @@ def mixed_machines(tier):
              with_let=True, with_quant=True, seeds=('vars', 'used'))
     b = dict(names=('x', 'y'), max_handles=2, max_ext=1, ops=('or', 'implies', 'equiv', 'diff'),
              with_ite=True, with_foa=False, with_refops=False, with_let=True, with_quant=True,
-             seeds=('vars', 'used', 'warm'))
+             with_twin=True, seeds=('vars', 'used', 'warm'))
     out = []
     for label, kw, depth in (('mixed3', a, 2 if q else 3), ('mixed2', b, 3 if q else 4)):
         kw = dict(kw)
